@@ -115,6 +115,10 @@ class Ctx:
             self.error(getattr(fn, "__name__", "rule"), "inconclusive: %s" % e)
         except RecursionError as e:
             self.error(getattr(fn, "__name__", "rule"), "recursion limit in analysis")
+        except (IndexError, KeyError, AttributeError, TypeError, ValueError) as e:
+            # a rule that trips over an unexpected construct is an analysis error of that rule only
+            import traceback
+            self.error(getattr(fn, "__name__", "rule"), "internal error: %r at %s" % (e, traceback.format_exc().strip().splitlines()[-3].strip()))
 
     def need(self, cond, rule, message):
         if not cond:
